@@ -9,7 +9,9 @@ package main
 //	<sort>    - | <field><dir>,...      dir: + ASC, - DESC, ~ no keyword
 //	<skip>    - | <int64> | x (a non-integer NUMBER) | big (an integer beyond int64)
 //	<limit>   - | <int64> | none | x | big
-//	<prov>    - | all.<r>.<r>.. | any.<r>.<r>..   cursor provider for QueryWithCursorC
+//	<prov>    - | all[.<r>..] | any[.<r>..] | val.<r> | rel.<owner> | nil     cursor provider for QueryWithCursorC:
+//	          IteratorMatchingAllOf / AnyOf with 0, 1 or more values (duplicates allowed), setIndex.OpenValueCursor,
+//	          owners.GetRelatedEntitiesCursor(owner, "things") (fk back-reference list), a provider returning nil
 //	<seek>    - | S<hex>                          Seek target for the unpaged IterateIds cursor
 //	<store>   root | child | ext                  the store queried: "things", its plain child store, its extended child store
 //
@@ -22,10 +24,15 @@ package main
 //	prov   Store.QueryWithCursorC with IteratorMatchingAllOf / IteratorMatchingAnyOf   ("-" if none)
 //	iter   Store.IterateIds(query) drained with IsValid/Current/Next
 //	seek   Store.IterateIds(predicate) (unpaged), Seek(v), drained                     ("-" if none)
+//	alien  Store.QueryIdsC with a query parsed against a foreign symbol table (every name a string symbol) and filter
+//	       `true`: the sort list reaches newRowComparator unvalidated (set symbols, names the store does not know)
+//	sub    for rel.<owner>: the cursor Symbols.OpenSetCursorForQuery("things", query) returns on the owner's row
+//	       (newCursorScanner), drained; "none" if there is no such owner                    ("-" otherwise)
 
 import (
 	"bufio"
 	"fmt"
+	"math"
 	"strconv"
 	"strings"
 
@@ -56,7 +63,14 @@ func c02Exec(line string) string {
 	}
 	text := pgQueryText(f[2], f[3], f[4], f[5])
 	var out []string
+	// QueryIdsC with a query object that was parsed against a foreign symbol table accepting every name as a string
+	// symbol (filter `true`): the sort list reaches newRowComparator without the parser's validation
+	alien := "alien=err"
 	err := s.db.View(func(tx *bbolt.Tx) error {
+		if q, perr := ast.Parse(pgAnySymbols{}, pgQueryText("true", f[3], f[4], f[5])); perr == nil {
+			ids, count, err := store.QueryIdsC(tx, q)
+			alien = "alien=" + pgIds(ids, count, err)
+		}
 		// QueryIds
 		ids, count, err := store.QueryIds(tx, text)
 		out = append(out, "ids="+pgIds(ids, count, err))
@@ -65,7 +79,8 @@ func c02Exec(line string) string {
 		q, perr := ast.Parse(store, text)
 		if perr != nil {
 			out = append(out, "idsc=err", "cur=err", "prov="+map[bool]string{true: "-", false: "err"}[f[6] == "-"], "iter=err",
-				"seek="+map[bool]string{true: "-", false: "err"}[f[7] == "-"])
+				"seek="+map[bool]string{true: "-", false: "err"}[f[7] == "-"],
+				"sub="+map[bool]string{true: "err", false: "-"}[strings.HasPrefix(f[6], "rel.")], alien)
 			return nil
 		}
 		ids1, c1, e1 := store.QueryIdsC(tx, q)
@@ -97,10 +112,21 @@ func c02Exec(line string) string {
 		} else {
 			p := strings.Split(f[6], ".")
 			var prov ast.SetCursorProvider
-			if p[0] == "all" {
+			switch p[0] {
+			case "all":
 				prov = s.things.IteratorMatchingAllOf(s.idxRoles, p[1:])
-			} else {
+			case "any":
 				prov = s.things.IteratorMatchingAnyOf(s.idxRoles, p[1:])
+			case "val":
+				prov = func(tx *bbolt.Tx, forward bool) ast.SetCursor {
+					return s.idxRoles.OpenValueCursor(tx, []byte(p[1]), forward)
+				}
+			case "rel":
+				prov = func(tx *bbolt.Tx, forward bool) ast.SetCursor {
+					return s.owners.GetRelatedEntitiesCursor(tx, p[1], "things", forward)
+				}
+			default: // nil
+				prov = func(tx *bbolt.Tx, forward bool) ast.SetCursor { return nil }
 			}
 			q, _ = ast.Parse(store, text)
 			ids, count, err = store.QueryWithCursorC(tx, prov, q)
@@ -135,6 +161,21 @@ func c02Exec(line string) string {
 			}
 			out = append(out, "seek="+strings.Join(sk, ","))
 		}
+
+		// newCursorScanner: the sub-query cursor of the owner's `things` set, obtained through the ast.Symbols the
+		// owners store hands to a filter node
+		if !strings.HasPrefix(f[6], "rel.") {
+			out = append(out, "sub=-")
+		} else {
+			// parsed against the queried store (whose parse is known to succeed); newCursorScanner reads only the
+			// predicate and the paging of it and evaluates in the linked store "things"
+			q, _ = ast.Parse(store, text)
+			cap := &pgCapture{owner: f[6][4:], query: q, result: "none"}
+			for c := s.owners.IterateIds(tx, cap); c.IsValid(); c.Next() {
+			}
+			out = append(out, "sub="+cap.result)
+		}
+		out = append(out, alien)
 		return nil
 	})
 	if err != nil {
@@ -143,26 +184,65 @@ func c02Exec(line string) string {
 	return strings.Join(out, "|")
 }
 
+// pgAnySymbols is a symbol table that knows every name as a non-set string symbol.
+type pgAnySymbols struct{}
+
+func (pgAnySymbols) GetSymbolType(name string) (ast.NodeType, bool) { return ast.NodeTypeString, true }
+func (pgAnySymbols) GetSetSymbolTypes(name string) ast.SymbolTypes  { return nil }
+func (pgAnySymbols) IsSet(name string) (bool, bool)                 { return false, true }
+
+// pgCapture is a filter node that, evaluated on the row of one owner, opens the sub-query cursor over the owner's
+// `things` set (rowCursorImpl.OpenSetCursorForQuery -> newCursorScanner) and drains it.
+type pgCapture struct {
+	owner  string
+	query  ast.Query
+	result string
+}
+
+func (n *pgCapture) String() string        { return "capture" }
+func (n *pgCapture) GetType() ast.NodeType { return ast.NodeTypeBool }
+func (n *pgCapture) Accept(v ast.Visitor)  {}
+func (n *pgCapture) IsConst() bool         { return false }
+func (n *pgCapture) EvalBool(s ast.Symbols) bool {
+	if id := s.EvalString("id"); id == nil || *id != n.owner {
+		return false
+	}
+	var ids []string
+	for c := s.OpenSetCursorForQuery("things", n.query); c.IsValid(); c.Next() {
+		ids = append(ids, string(c.Current()))
+		if len(ids) > 1000 {
+			ids = append(ids, "RUNAWAY")
+			break
+		}
+	}
+	n.result = strings.Join(ids, ",")
+	return true
+}
+
 func c02Emit(out *bufio.Writer, ds, filter, sortTok, skip, limit, prov, seek, store string) {
 	fmt.Fprintf(out, "q %s %s %s %s %s %s %s %s\n", ds, filter, sortTok, skip, limit, prov, seek, store)
 }
 
 func c02GenProv(r *rng) string {
-	if r.chance(1, 2) {
+	k := r.intn(16)
+	switch {
+	case k < 7:
 		return "-"
-	}
-	kind := pick(r, []string{"all", "any"})
-	n := 1 + r.intn(2)
-	var rs []string
-	for _, ro := range pgRolePool {
-		if len(rs) < n && r.chance(2, 3) {
-			rs = append(rs, ro)
+	case k < 12:
+		// IteratorMatchingAllOf / AnyOf: 0, 1 or several values, duplicates, a value nobody has
+		kind := pick(r, []string{"all", "any"})
+		n := pick(r, []int{0, 1, 1, 2, 2, 3, 4})
+		tok := kind
+		for i := 0; i < n; i++ {
+			tok += "." + pick(r, []string{"r", "r", "w", "w", "x", "q"})
 		}
+		return tok
+	case k < 13:
+		return "val." + pick(r, []string{"r", "w", "x", "q"})
+	case k < 15:
+		return "rel." + pick(r, []string{"o1", "o1", "o2", "o3", "o9"})
 	}
-	if len(rs) == 0 {
-		rs = []string{"r"}
-	}
-	return kind + "." + strings.Join(rs, ".")
+	return "nil"
 }
 
 func c02GenSeek(r *rng) string {
@@ -170,6 +250,140 @@ func c02GenSeek(r *rng) string {
 		return "-"
 	}
 	return "S" + strings.TrimPrefix(toWire(pick(r, append([]string{"", "a0", "bb", "zzz"}, pgIdPool...))), "-")
+}
+
+// ---- datasets whose stored types differ from the symbol types (FieldTo* coercions)
+
+var c02MixedInts = []string{"I-1", "I0", "I7", "I9", "I10", "J7", "J-1", "J2147483647", "J-2147483648", "I9007199254740992", "I9007199254740993",
+	"I9223372036854775807", "I9223372036854775806", "I-9223372036854775808", "I16777216", "I16777217", "I2147483648"}
+var c02MixedStrs = []string{"S", "S61", "S37", "S74727565", "S2d31", "S323032312d30332d30345430353a30363a30375a", "S302e35"}
+var c02MixedTimes = []string{"T1614834367000000000", "T1614834367000000001", "T-1000000000", "T1577836800500000000", "T" + pgZeroTime}
+
+func c02MixedFloats() []string {
+	vals := []float64{-1.5, math.Copysign(0, -1), 0, 0.5, 2.5, 7, -1, 0.1, 1e21, 5e-324, 9007199254740992, 9223372036854775808,
+		math.Inf(1), math.Inf(-1), 1.7976931348623157e308, math.NaN(), math.NaN()}
+	var out []string
+	for _, v := range vals {
+		out = append(out, pgFloatTok(v))
+	}
+	return out
+}
+
+func c02MixedKind(r *rng, kind, col int) string {
+	switch kind {
+	case 0:
+		return pick(r, []string{"B0", "B1", "N"})
+	case 1:
+		return pick(r, c02MixedInts)
+	case 2:
+		return pick(r, c02MixedFloats())
+	case 3:
+		return pick(r, c02MixedStrs)
+	case 4:
+		return pick(r, c02MixedTimes)
+	}
+	return "N"
+}
+
+// c02MixedTok picks a value for column col (1..6 = b i n f s t): the column's own pool, or — two times out
+// of three — a value of ANOTHER stored type, which the column's symbol then reads through FieldTo<its type>.
+func c02MixedTok(r *rng, col int) string {
+	own := [][]string{nil, pgBoolPool, pgIntPool, pgInt32Pool, pgFloatPool, pgStrPool, pgTimePool}[col]
+	if r.chance(1, 3) {
+		return pick(r, own)
+	}
+	return c02MixedKind(r, r.intn(5), col)
+}
+
+// c02GenMixedRows: one FOCUS column is filled with values of one or two stored kinds in every row (so that
+// coerced keys tie, nearly tie and collide with each other); the other columns are mixed freely.
+func c02GenMixedRows(r *rng, n int) (string, string) {
+	ids := append([]string{}, pgIdPool...)
+	for len(ids) > n {
+		k := r.intn(len(ids))
+		ids = append(ids[:k], ids[k+1:]...)
+	}
+	focus := 1 + r.intn(6)
+	// the coercions that do something: float64 symbol <- ints, string symbol <- everything
+	if r.chance(1, 2) {
+		focus = pick(r, []int{4, 5, 5})
+	}
+	k1, k2 := r.intn(5), r.intn(5)
+	if focus == 4 {
+		k1, k2 = 1, pick(r, []int{1, 2})
+	}
+	var rows []string
+	for _, id := range ids {
+		f := []string{id}
+		for col := 1; col <= 6; col++ {
+			if col == focus {
+				f = append(f, c02MixedKind(r, pick(r, []int{k1, k2}), col))
+			} else {
+				f = append(f, c02MixedTok(r, col))
+			}
+		}
+		f = append(f, "R"+pick(r, []string{"", "r", "r.w", "w"}), pick(r, []string{"C", "C", "C1", "C2"}))
+		rows = append(rows, strings.Join(f, ","))
+	}
+	return strings.Join(rows, ";"), []string{"", "b", "i", "n", "f", "s", "t"}[focus]
+}
+
+func c02GenMixed(r *rng, out *bufio.Writer, nData, perData int) {
+	for d := 0; d < nData; d++ {
+		n := 1 + r.intn(7)
+		ds, focus := c02GenMixedRows(r, n)
+		sp, lp := pgSkipPool(n), pgLimitPool(n)
+		for k := 0; k < perData; k++ {
+			sortTok := pgGenSort(r)
+			for sortTok == "-" || strings.HasPrefix(sortTok, "id") {
+				sortTok = pgGenSort(r)
+			}
+			if r.chance(2, 3) {
+				sortTok = focus + pick(r, []string{"+", "-", "~"}) + pick(r, []string{"", "", "," + sortTok})
+			}
+			skip, limit := "-", "-"
+			if r.chance(1, 2) {
+				skip, limit = pgPickPaging(r, sp, n, false), pgPickPaging(r, lp, n, true)
+			}
+			filter := "true"
+			if r.chance(1, 3) {
+				filter = pgGenFilter(r, false)
+			}
+			c02Emit(out, ds, filter, sortTok, skip, limit, "-", "-", pick(r, []string{"root", "root", "root", "child", "ext"}))
+		}
+	}
+}
+
+// ---- sort fields the parser resolves but the comparator may refuse: map elements, linked symbols, the fk
+// symbol itself, an AnyType symbol, the child stores' own symbol
+
+var c02OddSorts = []string{"tags.k+", "tags.k-,s+", "s+,tags.k-", "id+,tags.k-", "id-,tags.k.deep+", "owner.label+", "owner.label-,id+",
+	"id~,owner.label-", "owner.id+", "s-,owner.id+", "owner+", "owner-,s+", "s+,owner-", "b+,owner~,i-", "a+", "s-,a+", "id-,a+",
+	"code+", "code-,s+", "s+,code-", "id+,code-", "owner.things+", "owner.nosuch+", "tags+", "a+,tags.k+", "tags.k+,a+",
+	"owner+,owner-", "i+,b-,s+,t-,f+,owner-", "i+,b-,s+,t-,f+,tags.k-",
+	"roles+", "s+,roles-,nosuch+", "s+,nosuch-,roles+", "a+,roles-", "roles+,a-", "id+,roles-", "id-,nosuch+", "nosuch+", "things+", "tags-"}
+
+func c02GenOddSorts(r *rng, out *bufio.Writer, nData, perData int) {
+	for d := 0; d < nData; d++ {
+		n := 1 + r.intn(7)
+		ds := pgGenRows(r, n)
+		sp, lp := pgSkipPool(n), pgLimitPool(n)
+		for k := 0; k < perData; k++ {
+			skip, limit := "-", "-"
+			if r.chance(1, 2) {
+				skip, limit = pgPickPaging(r, sp, n, false), pgPickPaging(r, lp, n, true)
+			}
+			filter := "true"
+			if r.chance(1, 4) {
+				filter = pgGenFilter(r, false)
+			}
+			prov := "-"
+			if r.chance(1, 4) {
+				prov = c02GenProv(r)
+			}
+			c02Emit(out, ds, filter, pick(r, c02OddSorts), skip, limit, prov, "-", pick(r, []string{"root", "root", "child", "ext"}))
+		}
+	}
 }
 
 func c02Gen(tier string, seed uint64, out *bufio.Writer) {
@@ -206,6 +420,13 @@ func c02Gen(tier string, seed uint64, out *bufio.Writer) {
 			c02Emit(out, ds, pgGenFilter(r, false), sortTok, skip, limit, c02GenProv(r), c02GenSeek(r),
 				pick(r, []string{"root", "root", "root", "child", "child", "ext"}))
 		}
+	}
+	if tier == "thorough" {
+		c02GenMixed(newRng(seed^0xC02A), out, 2400, 30)
+		c02GenOddSorts(newRng(seed^0xC02B), out, 600, 30)
+	} else {
+		c02GenMixed(newRng(seed^0xC02A), out, 160, 25)
+		c02GenOddSorts(newRng(seed^0xC02B), out, 60, 30)
 	}
 	if tier == "thorough" {
 		// bounded-exhaustive: n <= 6 rows x every skip/limit pool pair x 1-2 sort fields
